@@ -36,33 +36,58 @@ var c10inCallback func()
 
 type c10cb struct{ V int }
 
+// The event fires twice inside a callback: on entry, and after the last use of the receiver
+// and of the argument - from there on the callback's own frame keeps neither alive, so they
+// survive a collection only if the generated frame that made the call (its stack map) or a
+// Go caller still references them.
 func (c c10cb) MarshalJSON() ([]byte, error) {
 	if c10inCallback != nil {
 		c10inCallback()
 	}
-	return []byte(fmt.Sprintf(`{"cb":%d}`, c.V)), nil
+	out := []byte(fmt.Sprintf(`{"cb":%d}`, c.V))
+	if c10inCallback != nil {
+		c10inCallback()
+	}
+	return out, nil
 }
 func (c *c10cb) UnmarshalJSON(b []byte) error {
 	if c10inCallback != nil {
 		c10inCallback()
 	}
 	c.V = len(b)
+	if c10inCallback != nil {
+		c10inCallback()
+	}
 	return nil
 }
 
-type c10tx struct{ V int }
+// (larger than the tiny-allocator limit and with a pointer: an unreferenced key object is a
+// heap object of its own that a collection frees and GODEBUG=clobberfree=1 poisons)
+type c10tx struct {
+	V int
+	S string
+	P [2]uintptr
+}
 
 func (c c10tx) MarshalText() ([]byte, error) {
 	if c10inCallback != nil {
 		c10inCallback()
 	}
-	return []byte(fmt.Sprintf("tx%d", c.V)), nil
+	out := []byte(fmt.Sprintf("tx%d", c.V))
+	if c10inCallback != nil {
+		c10inCallback()
+	}
+	return out, nil
 }
 func (c *c10tx) UnmarshalText(b []byte) error {
 	if c10inCallback != nil {
 		c10inCallback()
 	}
 	c.V = len(b)
+	c.S = "k:" + string(b)
+	if c10inCallback != nil {
+		c10inCallback()
+	}
 	return nil
 }
 
@@ -132,7 +157,7 @@ func c10progs() []c10prog {
 	enc("interface-tree", func() interface{} { var v interface{}; json.Unmarshal([]byte(c10doc), &v); return v })
 	enc("[]callback", func() interface{} { return []c10cb{{1}, {2}, {3}} })
 	enc("[]*callback", func() interface{} { return []*c10cb{{1}, nil, {3}} })
-	enc("map[text]callback", func() interface{} { return map[c10tx]c10cb{{1}: {1}, {2}: {2}} })
+	enc("map[text]callback", func() interface{} { return map[c10tx]c10cb{{V: 1}: {1}, {V: 2}: {2}} })
 	enc("Rec", func() interface{} { var v gen.Rec; json.Unmarshal([]byte(`{"V":1,"next":{"V":2,"kids":[{"V":3},{"V":4,"m":{"a":{"V":5}}}]}}`), &v); return v })
 	enc("map[string]interface", func() interface{} { return map[string]interface{}{"a": []interface{}{1, "s", nil, 1.5}, "b": map[string]interface{}{"c": true}} })
 	enc("[]string-escapes", func() interface{} { return []string{"plain", "q\"\\", "<&>", "é😀", "\xff", strings.Repeat("y", 70)} })
